@@ -284,7 +284,9 @@ def queries(tier):
              [('qual', 'checksum', '')], [('qual', 'checksum', H(1))], [('qual', 'checksum', ''), ('qual', 'a', '')],
              [('qual', 'k', ''), ('ver', H(1))], [('name', H(1)), ('fail',)]]
     inputs = [['pkg:', H(3 if th else 2, 'h'), '/n'], ['pkg:custom/', H(2, 'h')], ['pkg:custom/ns/n@1?k=', H(1, 'h'), '#s'], ['pkg:custom/n?', H(1, 'h'), '=', H(1, 'g')],
-              ['pkg:', H(4 + deep, 'h')], ['pkg:custom/n?z=1&checksum=A:', H(2, 'h')]]
+              ['pkg:', H(4 + deep, 'h')], ['pkg:custom/n?z=1&checksum=A:', H(2, 'h')],
+              # a second defect next to a failing conversion / hook: the first error that occurs is the one returned
+              ['pkg:custom/', H(3, 'h')], ['pkg:custom/n@', H(3, 'h')], ['pkg:custom/', H(3, 'h'), '/n']]
     for conv_ok in (True, False):
         for hi, hook in enumerate(hooks):
             for parts in inputs:
